@@ -198,6 +198,21 @@ def run_case(spec, lines, out):
                 emit(line, f"ok I {nums(s.inflow.values * g)} | O {nums(s.outflow.values * g)} | SC {nums(s.get_stock_by_cohort() * g)} | "
                            f"OC {nums(s.get_outflow_by_cohort() * g)} | D {nums(s.stock.values * g)}")
                 last = s
+                if m >= 2 and k == 0 and not op.get("int") and op["solver"] == "manual":
+                    # label independence, probed with a driver that is not a number for one label: the other
+                    # labels' results must be what they were (the model has no NaN: harness-level observation)
+                    st2 = np.asarray(st, dtype=float).copy().reshape(shape[0], -1)
+                    st2[:, 0] = np.nan
+                    s2 = StockDrivenDSM(dims=dims, lifetime_model=model, time_letter="t", solver=op["solver"],
+                                        stock=StockArray(dims=dims, values=st2.reshape(shape)))
+                    try:
+                        s2.compute()
+                        a = np.asarray(s.inflow.values, dtype=float).reshape(shape[0], -1)[:, 1:]
+                        b = np.asarray(s2.inflow.values, dtype=float).reshape(shape[0], -1)[:, 1:]
+                        same = np.allclose(a, b, rtol=1e-9, atol=1e-12, equal_nan=False)
+                    except Exception:
+                        same = False
+                    emit("note other_labels_unaffected_by_nan_label", "ok" if same else "CHANGED")
             elif kind == "fds":
                 line = "fds " + " ".join(op["inflow"]) + " ; " + " ".join(op["outflow"])
                 s = SimpleFlowDrivenStock(dims=dims, time_letter="t",
